@@ -8,9 +8,13 @@ import cola.linalg as L
 from cola import ops
 from cola.linalg.inverse.pinv import LSTSQ
 from cola.linalg.svd.svd import DenseSVD, svd
+from mc import alphabet as AB
+from mc import invfam
 from mc import krylov as K
 from mc import payload as P
+from mc.refmodel import coarse_signature, ref
 from mc.termcheck import short
+from mc.terms import build, to_source
 
 PROPERTY = "C16"
 PAYLOAD_SEEDS = {"thorough": [0, 1, 2, 3]}  # the thorough tier repeats the whole enumeration for four payload seeds
@@ -19,6 +23,8 @@ ASSUMPTIONS = [
     "a dense / structural rule asked for k < min(m, n) may return either all triplets (product = A) or the k requested ones (best rank-k "
     "approximation for 'LM'); a Krylov algorithm must return exactly k triplets",
     "Lanczos is run with max_iters >= dimension and tol 1e-12; LOBPCG is excluded (float32 scipy delegate, unkeyed randomness: C17)",
+    "operator terms (every kind, depth <= 1): judged when the reference has full rank with cond <= 1e3; the rank-k part and the Lanczos "
+    "algorithm are judged only when consecutive singular values differ by >= 1e-3 * sigma_max (counted otherwise); CG only for cond <= 30",
     "NumPy backend only",
 ]
 SVD_ALGS = ["omitted", "Auto", "DenseSVD", "Lanczos"]
@@ -58,10 +64,45 @@ def operator(spec, seed):
         n = spec[1]
         p = np.roll(np.arange(n), 1)
         return ops.Permutation(p, np.float64), np.eye(n)[p], np.ones(n)
+    if kind == "herm":  # self-adjoint with prescribed eigenvalues; the largest singular values come from NEGATIVE eigenvalues when indefinite
+        _, n, c, ann, definite = spec
+        lam = (1.0 + 0.45 * np.arange(n)) * (1.0 if definite else 1.0) * (np.ones(n) if definite else np.where(np.arange(n) % 2 == (n - 1) % 2, -1.0, 1.0))
+        lam = P.rng(seed, "c16herm", n).permutation(lam)
+        M, _ = K.hermitian(seed, n, lam, c, "c16h")
+        A = ops.Dense(M)
+        import cola
+        A = {"none": A, "SelfAdjoint": cola.SelfAdjoint(A), "PSD": cola.PSD(A)}[ann]
+        return A, M, np.sort(np.abs(lam))[::-1]
+    if kind == "term":
+        t = spec[1]
+        M = ref(t, seed).mat
+        return build(t, seed), M, np.linalg.svd(M, compute_uv=False)
     raise ValueError(kind)
 
 
+def term_family(tier):
+    D = AB.D
+    rect = [D(3, 2, "f8", "g"), D(2, 3, "c16", "g"), D(4, 2, "f8", "g"), D(1, 3, "f8", "g"), D(3, 1, "c16", "g"), D(2, 4, "f8", "g"),
+            ["Generic", [3, 2], "f8", "g"], ["Sparse", [2, 3], "f8", "g"], ["Concat", [D(2, 2, "f8", "wc"), D(1, 2, "f8", "g")], 0],
+            ["Concat", [D(2, 2, "c16", "wc"), D(2, 1, "f8", "g")], 1], ["slice", D(3, 3, "f8", "wc"), ["s", 0, 2, None], ["s", None, None, None]],
+            ["slice", D(3, 3, "c16", "wc"), ["s", None, None, None], ["i", [2, 0]]]]
+    L = AB.with_shapes(invfam.leaves() + rect)
+    un = {"T": AB.UNARY["T"], "H": AB.UNARY["H"], "lmul": lambda a: [["lmul", "cj", a]], "NoDisp": AB.UNARY["NoDisp"]}
+    bi = {"matmul": AB.BINARY["matmul"], "kron": AB.BINARY["kron"], "BlockDiag": lambda a, b: [["BlockDiag", [a, b], [2, 1]]], "add": AB.BINARY["add"]}
+    if tier == "quick":
+        pk = {repr(L[i][0]) for i in (1, 2, 12, 16, 23, 31)} | {repr(t) for t in rect[:6]}
+        Lp = [(t, sh) for t, sh in L if repr(t) in pk]
+        l1 = AB.grow([L], unary=un, binary={}, max_dim=16) + AB.grow([Lp], unary={}, binary=bi, max_dim=16)
+    else:
+        l1 = AB.grow([L], unary=un, binary=bi, max_dim=24)
+    return [t for t, _ in L + l1]
+
+
 def spec_class(spec):
+    if spec[0] == "term":
+        return "term:" + coarse_signature(spec[1])
+    if spec[0] == "herm":
+        return f"herm,{spec[3]},{'definite' if spec[4] else 'indefinite'},{'c' if spec[2] else 'r'}"
     if spec[0] == "dense":
         _, m, n, c = spec
         return f"dense,{'sq' if m == n else ('tall' if m > n else 'wide')},{'c' if c else 'r'}"
@@ -81,6 +122,12 @@ def run_case(case, seed):
         r = min(m, n)
         sv = np.linalg.svd(M, compute_uv=False)
         Uf, sf, Vhf = np.linalg.svd(M, full_matrices=False)
+        is_term = spec[0] == "term"
+        if is_term and (sv[-1] < 1e-3 * sv[0]):
+            return {"states": 0, "transitions": 1, "outcome": "not-judged", "violations": [], "notes": {"terms_not_judged_rank_deficient_or_cond>1e3": 1}}
+        gaps = np.abs(np.diff(sf)) >= 1e-3 * sv[0] if r > 1 else np.ones(0, bool)
+        if is_term and algname == "Lanczos" and not np.all(gaps):
+            return {"states": 0, "transitions": 1, "outcome": "not-judged", "violations": [], "notes": {"lanczos_not_judged_repeated_singular_values": 1}}
         for k in range(1, r + 1):
             for which in ("LM", "SM"):
                 kc = "k=min" if k == r else "k<min"
@@ -89,7 +136,7 @@ def run_case(case, seed):
                     key = f"C16|svd|{obs}|{sym}|{algname}|{spec_class(spec)}|{which}|{kc}"
                     if not any(v["key"] == key for v in vio):
                         vio.append({"key": key, "what": f"svd {obs}: {sym} ({algname}, {spec_class(spec)}, {which}, {kc})",
-                                    "detail": {**detail, "shape": [m, n], "k": k, "spec": spec}})
+                                    "detail": {**detail, "shape": [m, n], "k": k, "spec": spec, **({"src": to_source(spec[1])} if is_term else {})}})
 
                 ntr += 1
                 alg = {"omitted": None, "Auto": L.Auto(), "DenseSVD": DenseSVD(), "Lanczos": L.Lanczos(max_iters=max(m, n) + 2, tol=1e-12)}[algname]
@@ -106,7 +153,7 @@ def run_case(case, seed):
                 if Sd.shape != (j, j) or Ud.shape != (m, j) or Vd.shape != (n, j) or j not in (k, r):
                     bad("factors", "shape", {"U": list(Ud.shape), "S": list(Sd.shape), "V": list(Vd.shape), "expected_triplets": [k, r]})
                     continue
-                if algname == "Lanczos" and spec[0] == "dense" and j != k:
+                if algname == "Lanczos" and spec[0] in ("dense", "herm") and j != k:
                     bad("factors", "krylov-did-not-return-k-triplets", {"returned": j})
                 s = np.diag(Sd)
                 if np.max(np.abs(Sd - np.diag(s)), initial=0.0) > 1e-12:
@@ -124,9 +171,10 @@ def run_case(case, seed):
                 else:
                     idx = np.arange(k) if which == "LM" else np.arange(r - k, r)
                     best = (Uf[:, idx] * sf[idx][None, :]) @ Vhf[idx, :]
+                    cut_ok = bool(gaps[k - 1] if which == "LM" else gaps[r - k - 1])
                     if np.max(np.abs(np.sort(np.abs(s)) - np.sort(sf[idx]))) > 1e-6 * sv[0]:
                         bad("Sigma", "not-the-requested-singular-values", {"sigma": [complex(x) for x in s], "want": sf[idx].tolist()})
-                    elif np.max(np.abs(rec - best)) > 1e-6 * sv[0]:
+                    elif cut_ok and np.max(np.abs(rec - best)) > 1e-6 * sv[0]:
                         bad("U S V^H", "not-the-rank-k-part", {"err": float(np.max(np.abs(rec - best)))})
                 h.update(np.round(np.sort(np.abs(s)), 5).tobytes())
     return {"states": 2 * r, "transitions": ntr * 6, "outcome": h.hexdigest()[:12], "violations": vio}
@@ -140,6 +188,9 @@ def run_pinv(case, seed):
         warnings.simplefilter("ignore")
         A, M, sig = operator(spec, seed)
         m, n = M.shape
+        if spec[0] == "term" and (sig[-1] < 1e-3 * sig[0] or (algname == "CG" and sig[-1] < sig[0] / 30)):
+            return {"states": 0, "transitions": 1, "outcome": "not-judged", "violations": [],
+                    "notes": {"pinv_terms_not_judged_rank_deficient_or_illconditioned": 1}}
         Mp = np.linalg.pinv(M)
         g = P.rng(seed, "c16rhs", m, n)
         cplx = np.iscomplexobj(M)
@@ -150,7 +201,7 @@ def run_pinv(case, seed):
 
         def bad(obs, sym, detail):
             vio.append({"key": f"C16|pinv|{obs}|{sym}|{algname}|{spec_class(spec)}", "what": f"pinv {obs}: {sym} ({algname}, {spec_class(spec)})",
-                        "detail": {**detail, "shape": [m, n], "spec": spec}})
+                        "detail": {**detail, "shape": [m, n], "spec": spec, **({"src": to_source(spec[1])} if spec[0] == "term" else {})}})
 
         alg = {"omitted": None, "Auto": L.Auto(), "LSTSQ": LSTSQ(), "CG": L.CG(tol=1e-12, max_iters=200)}[algname]
         try:
@@ -184,6 +235,9 @@ _DESC = {}
 def cases(tier, seed):
     shapes = [(m, n) for m in range(1, 6) for n in range(1, 6)] + [(8, 3), (3, 8)] + ([(20, 20), (12, 7), (7, 12), (6, 6), (9, 2), (2, 9), (30, 5), (5, 30), (16, 15)] if tier == "thorough" else [])
     specs = [["dense", m, n, c] for (m, n) in shapes for c in (False, True)]
+    herm = [["herm", n, c, ann, definite] for n in ((1, 2, 3, 5, 6) if tier == "quick" else (1, 2, 3, 4, 5, 6, 9, 14)) for c in (False, True)
+            for ann, definite in (("none", False), ("SelfAdjoint", False), ("SelfAdjoint", True), ("PSD", True))]
+    specs += herm
     struct = [["Identity", 3, False], ["Identity", 2, True], ["Diagonal", 4, False], ["Diagonal", 3, True]]
     out = []
     for sp in specs + struct:
@@ -193,7 +247,13 @@ def cases(tier, seed):
     for sp in specs + pstruct:
         for a in PINV_ALGS:
             out.append(["pinv", sp, a])
-    _DESC.update({"shapes": len(shapes), "svd_operators": len(specs) + len(struct), "pinv_operators": len(specs) + len(pstruct), "work_items": len(out)})
+    tf = term_family(tier)
+    for t in tf:
+        for a in SVD_ALGS:
+            out.append(["svd", ["term", t], a])
+        for a in PINV_ALGS:
+            out.append(["pinv", ["term", t], a])
+    _DESC.update({"self_adjoint_families": len(herm), "operator_terms": len(tf), "shapes": len(shapes), "svd_operators": len(specs) + len(struct), "pinv_operators": len(specs) + len(pstruct), "work_items": len(out)})
     return out
 
 
@@ -204,7 +264,8 @@ def case_signature(case):
 def describe(tier, seed):
     return {
         "bound": "m x n in {1..5}^2 plus 8x3, 3x8" + (", 6x6, 9x2, 2x9, 12x7, 7x12, 16x15, 20x20, 30x5, 5x30" if tier == "thorough" else "") + ", real and complex, prescribed singular "
-                 "values; Identity, Diagonal (negative / complex entries), ScalarMul, Permutation; svd: ALL 1<=k<=min(m,n) x {LM, SM} x {omitted, Auto, "
+                 "values; self-adjoint dense operators (indefinite with the dominant singular value from a negative eigenvalue, definite; declared SelfAdjoint / PSD / undeclared); Identity, Diagonal (negative / complex entries), ScalarMul, Permutation; operator terms of every kind (invertible family + rectangular Dense / Generic / Sparse / Concatenated / Sliced leaves, "
+                 "depth-1 nesting with T, H, scalar, no_dispatch, +, @, kron, BlockDiag); svd: ALL 1<=k<=min(m,n) x {LM, SM} x {omitted, Auto, "
                  "DenseSVD, Lanczos}; pinv: {omitted, Auto, LSTSQ, CG} x right-hand sides {1-D, 2 columns, complex, inconsistent (tall)}",
         "alphabet": _DESC,
         "oracle": "U^H U = I, V^H V = I, Sigma diagonal and >= 0; all triplets: U S V^H = A; k triplets: the requested singular values and the "
